@@ -304,6 +304,14 @@ def run(ctx, build):
 
     # ---- every transfer on its OWN server port: many live sub-servers, real sockets ------------
     own_ports(ctx)
+
+    # the lock these guarantees rest on: the scheduler-shim exploration of C13 (real RWLock vs the Coq model, stuck-state
+    # search of the model replayed on the implementation), reduced
+    from props import c13 as _c13
+    ctx.lock_runs = 2500 if ctx.thorough else 400
+    _c13.run(ctx, build)
+    if ctx.violations:
+        return
     # ---- two transfer threads each handling a packet at the same time (two handler objects alive at once, every
     #      interleaving of their setup / handle / finish phases): each client gets the next block of ITS file
     from tftpdrv import Sim
